@@ -56,6 +56,11 @@ import Thanos.Model.LazyReader
         wanted  = "-" | <rank>(,<rank>)*               the requested values, sorted
       -> s=<kept table indices> l=<lastValOffset> v=<LabelValues as ranks> r=<range>(,<range>)*
          range = <start>:<end> | nf ;  r=err on an error
+    ih.names <names of all table entries, as ranks, in table order> <rank of "" or ->     -> LabelNames as ranks
+    ih.sym <shift> <nameSymbols ref:x<hex>,…> <refs to look up, in order> <symbol table ref:x<hex>,…>
+      -> x<hex> | err per lookup (the header's symbol caches are part of the model, invisible in the answers)
+    ih.v1 <rank of ""> <lastEnd> <v1 table name.value.offset,…> <name> <wanted values>   (ranks; index format v1)
+      -> v=<LabelValues> r=<range>,…
 
   C16 (lazy index-header) — grammar
     lz.seq <item>(,<item>)*     calls made one after the other on one LazyBinaryReader
@@ -506,6 +511,43 @@ def handleC11 : List String → Option String
       | .ok rs => joinWith "," (rs.map showRng)
       | .error _ => "err"
     pure s!"s={showNats "," (offs.map (·.2))} l={lastVal} v={lv} r={r}"
+  | "ih.names" :: names :: emptyName :: _ => do
+    let names ← parseNats? ',' names
+    let e ← if emptyName = "-" then some none else (parseNat? emptyName).map some
+    pure (showNats "," (labelNames e names))
+  | "ih.sym" :: shift :: names :: refs :: syms :: _ => do
+    let shift ← parseNat? shift
+    let names ← (listOf ',' names).mapM fun e =>
+      match splitChar ':' e with
+      | [o, k] => do
+        let o ← parseNat? o
+        let k ← strOfHex? (k.drop 1).toString
+        pure (o, k)
+      | _ => none
+    let refs ← parseNats? ',' refs
+    let syms ← (listOf ',' syms).mapM fun e =>
+      match splitChar ':' e with
+      | [o, k] => do
+        let o ← parseNat? o
+        let k ← strOfHex? (k.drop 1).toString
+        pure (o, k)
+      | _ => none
+    let table := fun (o : Nat) => syms.lookup o
+    let rs := lookupSymbols table names 1024 shift refs []
+    pure (joinWith "," (rs.map fun r => match r with | some s => "x" ++ (if s.isEmpty then "" else hexOfStr s) | none => "err"))
+  | "ih.v1" :: emptyName :: lastEnd :: tbl :: name :: wanted :: _ => do
+    let emptyName ← parseNat? emptyName
+    let lastEnd ← parseNat? lastEnd
+    let tbl ← (listOf ',' tbl).mapM fun e =>
+      match splitChar '.' e with
+      | [n, v, o] => do
+        let n ← parseNat? n; let v ← parseNat? v; let o ← parseNat? o
+        pure (n, v, o)
+      | _ => none
+    let name ← parseNat? name
+    let wanted ← parseNats? ',' wanted
+    let vals := ((tbl.filter fun e => e.1 = name).map fun e => e.2.1).toArray.qsort (· < ·) |>.toList
+    pure s!"v={showNats "," vals} r={joinWith "," ((lookupV1 false emptyName lastEnd tbl name wanted).map showRng)}"
   | _ => none
 end C11
 
